@@ -9,12 +9,41 @@ from cpverif import spec as S
 from cpverif.lib import L
 
 
-def chart_text(res: int, tempo, sections: dict[str, list[str]], events=(), fmt: int = 0, strays=()) -> str:
+_SONG_EXTRAS = ['Offset = 5', 'Player2 = rhythm', 'Difficulty = 3', 'Name = "end"', 'Genre = "rock"', 'Offset = 0.25',
+                'Player2 = bass', 'PreviewStart = 30', 'MediaType = "cd"', 'Charter = "N 5 0"', 'Year = ", 2018"',
+                'MusicStream = "song.ogg"', 'PreviewEnd = 99999', 'Artist = "S 2 100"', 'Album = "Resolution = 3"']
+_TS_FORMS = ["TS 3", "TS 6 3", "TS 4 2", "TS 7 3", "TS 1 0", "TS 12 3", "TS 5 2", "TS 2 1"]
+
+
+def _surroundings(res: int, sections: dict[str, list[str]], extra: int) -> tuple[list[str], list[str]]:
+    """Metadata fields, time signatures and anchors: things a chart usually carries and that say nothing
+    about what an instrument section contains.  A deterministic function of ``extra`` and the sections."""
+    if not extra:
+        return [], []
+    k = extra
+    song = [_SONG_EXTRAS[(k + 5 * j) % len(_SONG_EXTRAS)] for j in range((k >> 3) % 4)]
+    song = [x for i, x in enumerate(song) if x.split(" ", 1)[0] not in {y.split(" ", 1)[0] for y in song[:i]}]
+    ticks = sorted({int(l.split(" ", 1)[0]) for body in sections.values() for l in body[:60]
+                    if l[:1].isdigit() and l.split(" ", 1)[0].isdigit()})
+    sync: list[str] = []
+    if ticks and (k >> 5) % 3:
+        picks = sorted({ticks[(k >> 7) % len(ticks)], ticks[len(ticks) // 2], ticks[-1]})[: 1 + (k >> 9) % 3]
+        sync += [f"{t} = {_TS_FORMS[((k >> 11) + j) % len(_TS_FORMS)]}" for j, t in enumerate(picks) if t > 0]
+        if (k >> 13) % 2:
+            sync.append(f"{picks[0]} = A {(k >> 4) % 10 ** 7}")
+    return song, sync
+
+
+def chart_text(res: int, tempo, sections: dict[str, list[str]], events=(), fmt: int = 0, strays=(),
+               extra: int = 0) -> str:
     # ``strays``: lines of the instrument section repeated verbatim in [SyncTrack] and [Events], where
     # they are unparsable noise (what a line means depends on its section, not on its text)
     strays = list(strays)
-    secs = [("Song", [f"Resolution = {res}"]),
-            ("SyncTrack", ["0 = TS 4"] + [f"{t} = B {n}" for t, n in tempo] + strays[:2]),
+    song, sync = _surroundings(res, sections, extra)
+    pos = (extra >> 1) % (len(song) + 1)
+    secs = [("Song", song[:pos] + [f"Resolution = {res}"] + song[pos:]),
+            ("SyncTrack", ["0 = TS 4"] + [x for x in sync if " = TS " in x] + [f"{t} = B {n}" for t, n in tempo]
+             + [x for x in sync if " = A " in x] + strays[:2]),
             ("Events", strays[1:] + [S.event_line(e) for e in events])]
     secs += [(h, body) for h, body in sections.items()]
     if not fmt:
@@ -126,7 +155,9 @@ def parse_track(ctx, res: int, tempo, lines: list[str], header: str, rc, fmt: in
     strays = lines[:: max(1, len(lines) // 3)][:3] if (not fmt and len(lines) % 3 == 0) else ()
     secs = _decoys(header, lines, decoy)
     secs[header] = _with_inert(lines)
-    text = chart_text(res, tempo, secs, events=_global_events(lines), fmt=fmt, strays=strays)
+    k = zlib.crc32("\n".join(lines[:40]).encode()) >> 7
+    text = chart_text(res, tempo, secs, events=_global_events(lines), fmt=fmt, strays=strays,
+                      extra=k if k % 3 else 0)
     try:
         chart = L.parse(text)
     except Exception as e:  # noqa: BLE001
